@@ -10,37 +10,38 @@ import (
 )
 
 type EntryResult struct {
-	Entry         string                `json:"entry"`
-	Mode          string                `json:"mode"`
-	Paths         int                   `json:"paths"`
-	DeadPaths     int                   `json:"dead_paths"`
-	Obligations   int                   `json:"obligations"`
-	Discharged    int                   `json:"discharged"`
-	Trivial       int                   `json:"folded_by_simplifier"`
-	Forks         int                   `json:"forks"`
-	Merges        int                   `json:"diamond_merges"`
-	Queries       int                   `json:"solver_queries"`
-	SolverSec     float64               `json:"solver_s"`
-	WallSec       float64               `json:"wall_s"`
-	Violations    []*Violation          `json:"violations"`
-	Known         map[string]*Violation `json:"known_findings_hit"`
-	Inconclusive  []string              `json:"inconclusive"`
-	ReachDeclared []string              `json:"reach_declared"`
-	ReachMissing  []string              `json:"reach_missing"`
-	ReachHit      map[string]int        `json:"reach_hit"`
-	Functions     []string              `json:"functions_encoded"`
-	Bounds        map[string]int64      `json:"bounds"`
-	Assumptions   []string              `json:"assumptions"`
-	Samples       []string              `json:"samples"`
-	Witness       map[string]string     `json:"witness_inputs"`
-	Observed      []string              `json:"observed,omitempty"`
-	MaxAlloc      int64                 `json:"max_alloc"`
-	CrossChecked  int                   `json:"cross_checked"`
-	CrossDisagree []string              `json:"cross_disagree,omitempty"`
-	InitDiag      []string              `json:"init_diag,omitempty"`
-	Stubs         []string              `json:"stubs"`
-	Completed     int                   `json:"paths_completed"`
-	ModelHits     int                   `json:"model_cache_hits"`
+	Entry          string                `json:"entry"`
+	Mode           string                `json:"mode"`
+	Paths          int                   `json:"paths"`
+	DeadPaths      int                   `json:"dead_paths"`
+	Obligations    int                   `json:"obligations"`
+	Discharged     int                   `json:"discharged"`
+	Trivial        int                   `json:"folded_by_simplifier"`
+	Forks          int                   `json:"forks"`
+	Merges         int                   `json:"diamond_merges"`
+	Queries        int                   `json:"solver_queries"`
+	SolverSec      float64               `json:"solver_s"`
+	WallSec        float64               `json:"wall_s"`
+	Violations     []*Violation          `json:"violations"`
+	Known          map[string]*Violation `json:"known_findings_hit"`
+	Inconclusive   []string              `json:"inconclusive"`
+	ReachDeclared  []string              `json:"reach_declared"`
+	ReachMissing   []string              `json:"reach_missing"`
+	ReachHit       map[string]int        `json:"reach_hit"`
+	Functions      []string              `json:"functions_encoded"`
+	Bounds         map[string]int64      `json:"bounds"`
+	Assumptions    []string              `json:"assumptions"`
+	Samples        []string              `json:"samples"`
+	Witness        map[string]string     `json:"witness_inputs"`
+	Observed       []string              `json:"observed,omitempty"`
+	MaxAlloc       int64                 `json:"max_alloc"`
+	CrossChecked   int                   `json:"cross_checked"`
+	CrossDisagree  []string              `json:"cross_disagree,omitempty"`
+	CrossDismissed int                   `json:"cross_dismissed,omitempty"`
+	InitDiag       []string              `json:"init_diag,omitempty"`
+	Stubs          []string              `json:"stubs"`
+	Completed      int                   `json:"paths_completed"`
+	ModelHits      int                   `json:"model_cache_hits"`
 }
 
 type RunOpts struct {
@@ -93,7 +94,7 @@ func RunEntry(L *Loaded, entry string, opts RunOpts) (*EntryResult, error) {
 		SolverSec: e.solver.Time.Seconds(), WallSec: time.Since(t0).Seconds(), Violations: e.Violations,
 		Known: e.KnownHits, Inconclusive: dedupe(e.Inconclusive), ReachHit: e.ReachHit, Bounds: e.Bounds,
 		Assumptions: e.Assumptions, Samples: e.Samples, Witness: e.WitnessInputs, Observed: e.Observed,
-		MaxAlloc: e.MaxAlloc, Completed: e.Completed, ModelHits: e.ModelHits, CrossChecked: e.CrossChecked, CrossDisagree: e.CrossDisagree, InitDiag: e.InitDiag}
+		MaxAlloc: e.MaxAlloc, Completed: e.Completed, ModelHits: e.ModelHits, CrossChecked: e.CrossChecked, CrossDisagree: e.CrossDisagree, CrossDismissed: e.CrossDismissed, InitDiag: e.InitDiag}
 	if intMode {
 		res.Mode = "int"
 	} else {
